@@ -140,12 +140,13 @@ Fixpoint zip_opt (xs : list (list Q)) (ms : option (list (list Q))) : list (list
   end.
 
 (* call(): None models the ValueError exits.  [inputs] is the [batch, cols]
-   input, [is_missing] the optional second tensor of a two-element list. *)
-Definition pwl_call (L : pwl_layer) (inputs : list (list Q)) (is_missing : option (list (list Q)))
+   input, [is_missing] the optional second tensor of a two-element list,
+   [as_list] says the argument was a Python list (of one or two tensors). *)
+Definition pwl_call (L : pwl_layer) (as_list : bool) (inputs : list (list Q)) (is_missing : option (list (list Q)))
   : option (list (list (list Q))) :=
   let cols := length (hd [] inputs) in
   let ms_given := match is_missing with Some _ => true | None => false end in
-  if ms_given && negb (p_impute L) then None
+  if (as_list || ms_given) && negb (p_impute L) then None
   else if match is_missing with
           | Some ms => negb ((length ms =? length inputs)%nat && all_len cols ms)
           | None => false end then None
